@@ -10,7 +10,7 @@ class ContractError(Exception):
 
 
 def is_ref_kind(k):
-    return isinstance(k, tuple) and k[0] in ('list', 'arr', 'obj', 'set', 'opaque', 'ddict')
+    return isinstance(k, tuple) and k[0] in ('list', 'arr', 'obj', 'set', 'opaque', 'ddict', 'pdict')
 
 
 def parse_kind(s):
@@ -24,6 +24,8 @@ def parse_kind(s):
         return ('set',)
     if s == 'ddict[int]':
         return ('ddict', 'int')
+    if s == 'pdict[int]':
+        return ('pdict', 'int')
     if s.startswith('obj:'):
         return ('obj', s[4:])
     if s.startswith('opaque:'):
